@@ -185,10 +185,10 @@ package jet
 //@   requires RtOK(state)
 //@   modifies mapsof VarMap, type scope.variables
 //@   nopanic
-//@   loop 0 invariant sc != nil && (state.scope.parent == nil || state.scope.parent.variables == nil ==> sc == state.scope)
-//@   loop 0 invariant [walk-goes-outwards-through-scopes-with-variables] sc == state.scope || (state.scope.parent != nil && state.scope.parent.variables != nil && (sc == state.scope.parent || (state.scope.parent.parent != nil && state.scope.parent.parent.variables != nil)))
-//@   ensures [letglobal-single-scope] old(state.scope.parent) == nil || old(state.scope.parent.variables) == nil ==> has(state.scope.variables, name)
-//@   ensures [letglobal-binds-in-the-outermost-scope-with-variables] {C18} old(state.scope.parent) != nil && old(state.scope.parent.variables) != nil && (old(state.scope.parent.parent) == nil || old(state.scope.parent.parent.variables) == nil) ==> has(state.scope.parent.variables, name)
+//@   loop 0 invariant sc != nil && (state.scope.parent == nil ==> sc == state.scope)
+//@   loop 0 invariant [walk-goes-outwards] sc == state.scope || (state.scope.parent != nil && (sc == state.scope.parent || state.scope.parent.parent != nil))
+//@   ensures [letglobal-single-scope] old(state.scope.parent) == nil ==> has(state.scope.variables, name)
+//@   ensures [letglobal-binds-in-the-outermost-scope-also-when-execute-got-no-variables] {C18} old(state.scope.parent) != nil && old(state.scope.parent.parent) == nil ==> has(state.scope.parent.variables, name)
 
 //@ func (*Runtime).resolve
 //@   props C07 C18 C17 C11 C12
